@@ -72,6 +72,10 @@ EXPLANATION += (
     ' Round 10: no return of a function in the anchored modules is empty in one position next to positions that carry data while a sibling return fills it (R-AGREE/partially-empty-return).'
 )
 
+EXPLANATION += (
+    ' Round 11: no output writer edits a record reached from the results it was handed (R-ALIAS/records-read-only).'
+)
+
 RULE_TEXT = (
     "one obligation per value-identity / provenance / dominance relation "
     "named above; non-trivial when both ends of the relation exist")
